@@ -7,6 +7,9 @@ The file is only rewritten when its content changes, so `make` re-checks the
 dependent proofs exactly when the source tables changed.
 """
 import os, re, sys
+sys.path.insert(0, os.path.dirname(os.path.abspath(__file__)))
+import rsexpr
+from rsexpr import RsError
 
 REPO = os.environ.get("VERIF_REPO", "/repo")
 OUT = os.path.join(os.path.dirname(os.path.abspath(__file__)), "..", "coq", "Model", "Generated.v")
@@ -117,9 +120,14 @@ def main():
     # key/extras limits in request_valid
     m1 = re.search(r"self\.header\.extras_length\s*>\s*(\d+)", codec)
     m2 = re.search(r"self\.header\.key_length\s*>\s*(\d+)", codec)
-    if not (m1 and m2):
-        die("request_valid limits not found")
-    max_extras, max_key = int(m1.group(1)), int(m2.group(1))
+    limits_note = None
+    if m1 and m2:
+        max_extras, max_key = int(m1.group(1)), int(m2.group(1))
+    else:
+        # the comparisons are not spelt with literals: the model keeps the protocol's limits (the
+        # ones the property names); request_valid_is_source / the correspondence check tie them
+        max_extras, max_key = 20, 250
+        limits_note = "request_valid: limits not spelt as `> <literal>`; the model uses the protocol's 20 / 250"
 
     # the dispatch of parse_request on the opcode: `Some(binary::Command::X) | ... => self.parse_y(src)`
     m = re.search(r"let result = match FromPrimitive::from_u8\(self\.header\.opcode\)\s*\{(.*?)\n        \};", codec, re.S)
@@ -200,7 +208,7 @@ def main():
     m = re.search(r"pub fn handle_request\(.*?match req \{(.*?)\n        \}\n    \}", handler, re.S)
     if not m:
         die("handle_request: match not found")
-    hbody = m.group(1)
+    hbody = re.sub(r"//[^\n]*", "", m.group(1))
     variant_ids = {n: i + 1 for i, n in enumerate([
         "Delete", "DeleteQuiet", "Flush", "FlushQuietly", "Get", "GetKey", "GetQuietly", "GetKeyQuietly",
         "Increment", "IncrementQuiet", "Decrement", "DecrementQuiet", "Noop", "Stats", "Quit", "QuitQuietly",
@@ -265,12 +273,224 @@ def main():
     if re.search(r"Some\(\s*BinaryRequest::Stats\(", codec):
         die("the decoder now builds BinaryRequest::Stats: the model has no such request")
 
+
+    # ---- translated expressions and guard chains (tools/rsexpr.py) -----------------
+    memstore = read("memcrs/src/memory_store/store.rs")
+    memc = read("memcrs/src/memcache/store.rs")
+
+    def struct_fields(src, name, fail=die):
+        m = re.search(r"pub struct %s\s*\{(.*?)\}" % re.escape(name), src, re.S)
+        if not m:
+            fail("struct %s not found" % name)
+        out = []
+        for line in m.group(1).splitlines():
+            line = line.split("//")[0].strip().rstrip(",")
+            if not line:
+                continue
+            mm = re.fullmatch(r"(?:pub(?:\([a-z]+\))?\s+)?([a-z_]+)\s*:\s*([a-z0-9]+)", line)
+            if not mm or mm.group(2) not in rsexpr.BITS:
+                fail("struct %s: cannot parse field %r" % (name, line))
+            out.append((mm.group(1), mm.group(2)))
+        return out
+
+    req_fields = struct_fields(binary, "RequestHeader")
+    resp_fields = struct_fields(binary, "ResponseHeader")
+    meta_fields = dict(struct_fields(cache, "CacheMetaData"))
+    enums = {"binary::Magic::": "magic_", "binary::Command::": "cmd_", "binary::DataTypes::": "dtype_"}
+    m = re.search(r"pub struct MemcacheBinaryCodec\s*\{(.*?)\}", codec, re.S)
+    mm = m and re.search(r"item_size_limit\s*:\s*([a-z0-9]+)", m.group(1))
+    if not mm or mm.group(1) not in rsexpr.BITS:
+        die("MemcacheBinaryCodec::item_size_limit not found")
+    limit_ty = mm.group(1)
+
+    def header_env(extra=()):
+        v = {"self.header." + n: (t, "h_" + n) for n, t in req_fields}
+        v["self.item_size_limit"] = (limit_ty, "item_size_limit")
+        v.update(dict(extra))
+        return rsexpr.Env(v, enums)
+
+    def rs_fail(msg):
+        raise RsError(msg)
+
+    gen = {}        # item -> coq term
+    untranslated = {}   # item -> why the translator did not recognise the source
+
+    def attempt(items, fn):
+        """run one translation; a shape the translator does not recognise is recorded, not fatal:
+        the obligation `<item>_is_source` then does not apply and the correspondence check alone
+        ties that function to the model"""
+        try:
+            out = fn()
+        except RsError as e:
+            for it in items:
+                untranslated[it] = str(e)
+            return
+        gen.update(out)
+
+    def t_header_valid():
+        env = header_env()
+        term, _ = rsexpr.guard_chain(rsexpr.fn_body(codec, "header_valid"), env)
+        if not env.used <= {"self.header.magic", "self.header.opcode", "self.header.data_type"}:
+            raise RsError("header_valid reads %s" % sorted(env.used))
+        return {"header_valid": term}
+    attempt(["header_valid"], t_header_valid)
+
+    def t_request_valid():
+        env = header_env([("key_required", ("bool", "key_required"))])
+        term, _ = rsexpr.guard_chain(rsexpr.fn_body(codec, "request_valid"), env)
+        if not env.used <= {"self.header.extras_length", "self.header.key_length", "self.header.body_length", "key_required"}:
+            raise RsError("request_valid reads %s" % sorted(env.used))
+        return {"request_valid": term}
+    attempt(["request_valid"], t_request_valid)
+
+    # every comparison of the announced body length with the item size limit
+    def t_size_guards():
+        guards, sites = [], []
+        for site, fname in ((1, "parse_header"), (2, "parse_request"), (3, "decode")):
+            body = rsexpr.strip_comments(rsexpr.fn_body(codec, fname))
+            for mg in re.finditer(r"\bif\s+([^{};]*item_size_limit[^{};]*?)\s*\{", body):
+                env = header_env()
+                _, t = rsexpr.translate(mg.group(1), env, want="bool")
+                if env.used != {"self.header.body_length", "self.item_size_limit"}:
+                    raise RsError("size guard %r reads %s" % (mg.group(1), sorted(env.used)))
+                guards.append(t)
+                sites.append(site)
+        n_all = len(re.findall(r"item_size_limit\s*[<>=!]|[<>=!]=?\s*self\.item_size_limit", rsexpr.strip_comments(codec)))
+        if n_all != len(guards):
+            raise RsError("%d comparisons with item_size_limit in the codec, %d inside parse_header / parse_request / decode" % (n_all, len(guards)))
+        if not guards:
+            raise RsError("no comparison with item_size_limit found in the codec")
+        return {"size_guards": guards, "size_guard_sites": sites}
+    attempt(["size_guards"], t_size_guards)
+
+    def meta_env(prefix):
+        return rsexpr.Env({prefix + ".header.time_to_live": (meta_fields["time_to_live"], "ttl"),
+                           prefix + ".header.timestamp": (meta_fields["timestamp"], "ts"),
+                           "now__": ("u64", "now")}, {})
+
+    # MemoryStore::check_if_expired: the test on the record read, and the one on the record stored
+    def t_expired():
+        impl = re.search(r"impl impl_details::CacheImplDetails for MemoryStore\s*\{", memstore)
+        if not impl:
+            raise RsError("impl CacheImplDetails for MemoryStore not found")
+        body = rsexpr.strip_noise(rsexpr.fn_body(memstore[impl.end():], "check_if_expired")).replace("self.timer.timestamp()", "now__")
+        cut = body.find("self.memory.remove_if(")
+        if cut < 0:
+            raise RsError("check_if_expired: remove_if not found")
+        head = body[:body.rfind("let", 0, cut)]
+        if len(re.findall(r"return\s+None\s*;", head)) == 0:
+            raise RsError("check_if_expired: no early return")
+        env = meta_env("record")
+        # "not expired" returns None: as a boolean function, expired = no guard fires
+        read, _ = rsexpr.guard_chain(re.sub(r"return\s+None\s*;", "return false;", head) + "\ntrue", env)
+        mc = re.search(r"self\.memory\.remove_if\(\s*key\s*,\s*\|_key,\s*stored\|\s*\{(.*?)\}\s*\)\s*;", body, re.S)
+        if not mc:
+            raise RsError("check_if_expired: the predicate of remove_if not found")
+        env2 = meta_env("stored")
+        lets = re.sub(r"\bif\b.*", "", head, flags=re.S)     # the lets before the first guard
+        stored, _ = rsexpr.guard_chain(lets + "\n" + mc.group(1), env2)
+        return {"expired_read": read, "expired_stored": stored}
+    attempt(["expired_read", "expired_stored"], t_expired)
+
+    # MemoryStore::flush: when it is delayed, and which records it re-dates
+    def t_flush():
+        impl = re.search(r"impl Cache for MemoryStore\s*\{", memstore)
+        if not impl:
+            raise RsError("impl Cache for MemoryStore not found")
+        body = rsexpr.strip_noise(rsexpr.fn_body(memstore[impl.end():], "flush")).replace("self.timer.timestamp()", "now__")
+        mo = re.match(r"\s*if\s+(.*?)\s*\{", body, re.S)
+        if not mo:
+            raise RsError("flush: outer condition not found")
+        def fenv():
+            return rsexpr.Env({"header.time_to_live": (meta_fields["time_to_live"], "delay"),
+                               "value.header.time_to_live": (meta_fields["time_to_live"], "ttl"),
+                               "value.header.timestamp": (meta_fields["timestamp"], "ts"),
+                               "now__": ("u64", "now")}, {})
+        _, delayed = rsexpr.translate(mo.group(1), fenv(), want="bool")
+        end = rsexpr.match_brace(body, mo.end() - 1)
+        then = body[mo.end():end - 1]
+        rest = body[end:].strip()
+        if not re.fullmatch(r"else\s*\{\s*self\.memory\.clear\(\)\s*;\s*\}", rest):
+            raise RsError("flush: the immediate branch is not `self.memory.clear()`")
+        mi = re.search(r"\bif\s+([^{}]*?)\s*\{\s*value\.header\.timestamp\s*=\s*now\s*;\s*value\.header\.time_to_live\s*=\s*header\.time_to_live\s*;\s*\}\s*value\s*\}", then, re.S)
+        if not mi:
+            raise RsError("flush: the re-dating of a record not found")
+        lets = "\n".join(ml.group(0) for ml in re.finditer(r"let\s+(?:mut\s+)?[a-z_]+\s*=\s*[^;]*;", then))
+        if not re.search(r"let\s+now\s*=\s*now__\s*;", lets):
+            raise RsError("flush: `now` is not the clock")
+        redate, _ = rsexpr.guard_chain(lets + "\n" + mi.group(1), fenv())
+        return {"flush_delayed": delayed, "flush_redate": redate}
+    attempt(["flush_delayed", "flush_redate"], t_flush)
+
+    # MemcStore::add_delta: the arithmetic, and when an absent counter is created
+    def t_delta():
+        body = rsexpr.strip_noise(rsexpr.fn_body(memc, "add_delta")).replace("header.get_expiration()", "expiration__")
+        ma = re.search(r"\.map\(\|mut value: (u64)\|\s*\{(.*?)record\.value\s*=\s*Bytes::from\(value\.to_string\(\)\)\s*;", body, re.S)
+        if not ma:
+            raise RsError("add_delta: the arithmetic not found")
+        dp = dict(struct_fields(memc, "DeltaParam", fail=rs_fail))
+        env = rsexpr.Env({"value": (ma.group(1), "value"), "delta.delta": (dp["delta"], "delta"),
+                          "increment": ("bool", "increment")}, {})
+        delta = rsexpr.assign_chain(ma.group(2), env, "value")
+        mcg = re.search(r"Err\(_err\)\s*=>\s*\{\s*if\s+(.*?)\s*\{\s*let record = Record::new\(\s*Bytes::from\(delta\.value\.to_string\(\)\)", body, re.S)
+        if not mcg:
+            raise RsError("add_delta: the creation of an absent counter not found")
+        env = rsexpr.Env({"expiration__": ("u32", "exp")}, {})
+        _, creates = rsexpr.translate(mcg.group(1), env, want="bool")
+        return {"delta": delta, "delta_creates": creates}
+    attempt(["delta", "delta_creates"], t_delta)
+
+    # the wire layout of the two headers: field, width in bytes, in the order read / written
+    field_ids = {"magic": 1, "opcode": 2, "key_length": 3, "extras_length": 4, "data_type": 5,
+                 "vbucket_id": 6, "status": 6, "body_length": 7, "opaque": 8, "cas": 9}
+
+    def t_req_layout():
+        m = re.search(r"self\.header\s*=\s*binary::RequestHeader\s*\{(.*?)\}\s*;", codec, re.S)
+        if not m:
+            raise RsError("parse_header: construction of the RequestHeader not found")
+        lay = []
+        rf = dict(req_fields)
+        for line in rsexpr.strip_comments(m.group(1)).splitlines():
+            line = line.strip().rstrip(",")
+            if not line:
+                continue
+            mm = re.fullmatch(r"([a-z_]+)\s*:\s*src\.get_(u8|u16|u32|u64)\(\)", line)
+            if not mm or mm.group(1) not in field_ids:
+                raise RsError("parse_header: cannot parse field %r" % line)
+            if rf.get(mm.group(1)) != mm.group(2):
+                raise RsError("parse_header: field %s of type %s read with get_%s" % (mm.group(1), rf.get(mm.group(1)), mm.group(2)))
+            lay.append((mm.group(1), rsexpr.BITS[mm.group(2)] // 8))
+        if sorted(n for n, _ in lay) != sorted(rf):
+            raise RsError("parse_header: fields read %s, struct has %s" % ([n for n, _ in lay], sorted(rf)))
+        return {"request_layout": lay}
+    attempt(["request_layout"], t_req_layout)
+
+    def t_resp_layout():
+        wbody = rsexpr.strip_noise(rsexpr.fn_body(codec, "write_header_impl"))
+        lay = []
+        pf = dict(resp_fields)
+        for line in wbody.split(";"):
+            line = line.strip()
+            if not line:
+                continue
+            mm = re.fullmatch(r"dst\.put_(u8|u16|u32|u64)\(header\.([a-z_]+)\)", line)
+            if not mm or mm.group(2) not in field_ids:
+                raise RsError("write_header_impl: cannot parse %r" % line)
+            if pf.get(mm.group(2)) != mm.group(1):
+                raise RsError("write_header_impl: field %s of type %s written with put_%s" % (mm.group(2), pf.get(mm.group(2)), mm.group(1)))
+            lay.append((mm.group(2), rsexpr.BITS[mm.group(1)] // 8))
+        if sorted(n for n, _ in lay) != sorted(pf):
+            raise RsError("write_header_impl: fields written %s, struct has %s" % ([n for n, _ in lay], sorted(pf)))
+        return {"response_layout": lay}
+    attempt(["response_layout"], t_resp_layout)
+
     L = []
     A = L.append
     A("(* GENERATED by tools/gen_tables.py from the Rust sources — do not edit. *)")
     A("From Coq Require Import List NArith.")
     A("From Coq Require Import Init.Byte.")
     A("Import ListNotations.")
+    A("From MC Require Import Model.RustInt.")
     A("Open Scope N_scope.")
     A("")
     for n, v in magic:
@@ -330,6 +550,54 @@ def main():
     A("Definition decode_dispatch : list (list N * N) :=")
     A("  [" + ";\n   ".join("([%s], %d)" % ("; ".join("cmd_" + n for n in names), pid) for names, pid in dispatch) + "].")
     A("")
+
+    A("(* ---- translated from the source by tools/rsexpr.py: values are option N / option bool,")
+    A("   None = the evaluation panics (Model/RustInt.v). [src_X_ok = false]: the translator did not")
+    A("   recognise the shape of X in the source (reason in the comment); the obligation")
+    A("   X_is_source then does not apply and only the correspondence check ties X to the model ---- *)")
+
+    def emit_fn(item, what, params, ty):
+        A("(* %s *)" % what)
+        if item in gen:
+            A("Definition src_%s_ok : bool := true." % item)
+            A("Definition src_%s %s : option %s :=" % (item, params, ty))
+            A("  " + gen[item] + ".")
+        else:
+            A("(* not translated: %s *)" % untranslated[item].replace("*)", "* )").replace("(*", "( *"))
+            A("Definition src_%s_ok : bool := false." % item)
+            A("Definition src_%s %s : option %s := None." % (item, params, ty))
+
+    emit_fn("header_valid", "MemcacheBinaryCodec::header_valid", "(h_magic h_opcode h_data_type : N)", "bool")
+    emit_fn("request_valid", "MemcacheBinaryCodec::request_valid",
+            "(h_extras_length h_key_length h_body_length : N) (key_required : bool)", "bool")
+    A("(* every `if` of the codec that compares the announced body length with the item size limit *)")
+    if "size_guards" in gen:
+        A("Definition src_size_guards_ok : bool := true.")
+        A("Definition src_size_guards : list (N -> N -> option bool) :=")
+        A("  [" + ";\n   ".join("(fun h_body_length item_size_limit => %s)" % t for t in gen["size_guards"]) + "].")
+        A("(* the function each stands in: 1 parse_header, 2 parse_request, 3 decode *)")
+        A("Definition src_size_guard_sites : list N := [%s]." % "; ".join(str(x) for x in gen["size_guard_sites"]))
+    else:
+        A("(* not translated: %s *)" % untranslated["size_guards"].replace("*)", "* )").replace("(*", "( *"))
+        A("Definition src_size_guards_ok : bool := false.")
+        A("Definition src_size_guards : list (N -> N -> option bool) := [].")
+        A("Definition src_size_guard_sites : list N := [].")
+    emit_fn("expired_read", "MemoryStore::check_if_expired on the record that was read", "(ts ttl now : N)", "bool")
+    emit_fn("expired_stored", "MemoryStore::check_if_expired on the record stored when it removes", "(ts ttl now : N)", "bool")
+    emit_fn("flush_delayed", "MemoryStore::flush takes the delayed branch", "(delay : N)", "bool")
+    emit_fn("flush_redate", "MemoryStore::flush re-dates a record", "(ts ttl now delay : N)", "bool")
+    emit_fn("delta", "MemcStore::add_delta: the new counter value", "(increment : bool) (value delta : N)", "N")
+    emit_fn("delta_creates", "MemcStore::add_delta creates an absent counter", "(exp : N)", "bool")
+    A("(* header layouts: (field, bytes) in wire order; fields: " + ", ".join("%d %s" % (v, k) for k, v in field_ids.items()) + " *)")
+    for item in ("request_layout", "response_layout"):
+        if item in gen:
+            A("Definition src_%s_ok : bool := true." % item)
+            A("Definition src_%s : layout := [%s]." % (item, "; ".join("(%d, %d)" % (field_ids[n], w) for n, w in gen[item])))
+        else:
+            A("(* not translated: %s *)" % untranslated[item].replace("*)", "* )").replace("(*", "( *"))
+            A("Definition src_%s_ok : bool := false." % item)
+            A("Definition src_%s : layout := []." % item)
+    A("")
     text = "\n".join(L)
     out = os.path.normpath(OUT)
     old = None
@@ -341,6 +609,11 @@ def main():
         print("gen_tables: wrote %s" % out)
     else:
         print("gen_tables: %s up to date" % out)
+    for it in sorted(untranslated):
+        print("gen_tables: NOT-TRANSLATED %s: %s" % (it, untranslated[it]))
+    if limits_note:
+        print("gen_tables: NOT-TRANSLATED limits: " + limits_note)
+    print("gen_tables: TRANSLATED " + " ".join(sorted(k for k in gen if k != "size_guard_sites")))
 
 
 if __name__ == "__main__":
